@@ -36,10 +36,13 @@ fn everything_net(rng: &mut Rng) -> NetCfg {
         LCfg::Pool { kernel: (2, 2), stride: (1, 1) },
         LCfg::Dense { n, act: Act::Tanh, bias: true, dropout: drop(rng) },
         LCfg::Dense { n, act: act(rng), bias: rng.bool(), dropout: None },
+        LCfg::Dense { n, act: act(rng), bias: rng.bool(), dropout: None },
+        LCfg::Dense { n, act: act(rng), bias: rng.bool(), dropout: None },
         LCfg::Dense { n: rng.range(1, 3), act: *rng.pick(&[Act::Linear, Act::Sigmoid]), bias: true, dropout: None },
     ];
     let mut cfg = NetCfg::plain(Sh::Sp(c, h, w), layers);
-    cfg.skips = vec![(0, 2)];
+    // one connection across the block and two connections that share their source (layer 6)
+    cfg.skips = vec![(0, 2), (6, 7), (6, 8)];
     cfg.skipacc = Acc::Add;
     cfg.loops = vec![(5, 5, rng.range(1, 2), rng.bool())];
     cfg.loopacc = *rng.pick(&[Acc::Mean, Acc::Add]);
@@ -148,7 +151,7 @@ impl Monitor for C05 {
         vec![("miri", 1), ("schedules", tier.pick(24, 600)), ("wide", tier.pick(4, 40))]
     }
     fn rule(&self) -> &'static str {
-        "case = a network with every layer kind (convolution, feedback block of convolution+deconvolution, deconvolution, max-pool, three dense layers, a skip connection across the block, a loop connection over a dense layer, dropout on random layers), 24..64 training samples, batch 4..32, 2 epochs with 150..300 or 500..1300 validation inputs (2..21 chunks of 64, not a multiple of 64), followed by validate() and predict_batch() on the same inputs. The identical call is executed in a 1-thread pool without delays (reference) and in dedicated rayon pools of 2, 3, 4, 7, 16, 33 and 64 threads with the delay injector armed (random 0..300 us stalls at the entry of every per-sample forward pass, two delay seeds per pool size), plus once in an 8-thread pool while 16 busy threads starve the machine, plus a repetition of the reference. Every output - per-epoch train/validation loss and accuracy, all final weights, the validate() result, every predict_batch() output in order - must be bit-identical to the reference. Evidence that schedules differed: per training group the sample->worker assignment and the order in which the per-sample tasks started, taken from the event log; distinct = distinct (case, assignment/start-order) schedules observed. wide: the same protocol on networks whose dense layers have 4096..8200 inputs or outputs. Miri leg: /verif/miri under -Zmiri-many-seeds (4 seeds quick, 32 thorough): every seed must print the same bit patterns and Miri must report no undefined behaviour or data race."
+        "case = a network with every layer kind (convolution, feedback block of convolution+deconvolution, deconvolution, max-pool, five dense layers, a skip connection across the block, two skip connections sharing their source, a loop connection over a dense layer, dropout on random layers), 24..64 training samples, batch 4..32, 2 epochs with 150..300 or 500..1300 validation inputs (2..21 chunks of 64, not a multiple of 64), followed by validate() and predict_batch() on the same inputs. The identical call is executed in a 1-thread pool without delays (reference) and in dedicated rayon pools of 2, 3, 4, 7, 16, 33 and 64 threads with the delay injector armed (random 0..300 us stalls at the entry of every per-sample forward pass, two delay seeds per pool size), plus once in an 8-thread pool while 16 busy threads starve the machine, plus a repetition of the reference. Every output - per-epoch train/validation loss and accuracy, all final weights, the validate() result, every predict_batch() output in order - must be bit-identical to the reference. Evidence that schedules differed: per training group the sample->worker assignment and the order in which the per-sample tasks started, taken from the event log; distinct = distinct (case, assignment/start-order) schedules observed. wide: the same protocol on networks whose dense layers have 4096..8200 inputs or outputs. Miri leg: /verif/miri under -Zmiri-many-seeds (4 seeds quick, 32 thorough): every seed must print the same bit patterns and Miri must report no undefined behaviour or data race."
     }
     fn assumptions(&self) -> Vec<&'static str> {
         vec![
